@@ -3,16 +3,16 @@ module verifharness
 go 1.23.0
 
 require (
+	github.com/fxamacker/cbor/v2 v2.8.0
 	github.com/gofiber/fiber/v3 v3.0.0
+	github.com/gofiber/utils/v2 v2.0.0-beta.8
+	github.com/google/uuid v1.6.0
 	github.com/valyala/fasthttp v1.60.0
 )
 
 require (
 	github.com/andybalholm/brotli v1.1.1 // indirect
-	github.com/fxamacker/cbor/v2 v2.8.0 // indirect
 	github.com/gofiber/schema v1.3.0 // indirect
-	github.com/gofiber/utils/v2 v2.0.0-beta.8 // indirect
-	github.com/google/uuid v1.6.0 // indirect
 	github.com/klauspost/compress v1.18.0 // indirect
 	github.com/mattn/go-colorable v0.1.14 // indirect
 	github.com/mattn/go-isatty v0.0.20 // indirect
